@@ -257,7 +257,7 @@ fn c13_unknown_stream_type() {
     }
 }
 
-// @h props=C13 tier=quick t=120 expect=fail sub=twin
+// @h props=C13 tier=quick t=900 expect=fail sub=twin
 // @fn wtransport-proto/src/stream.rs StreamUniRemoteH3::read_frame
 // @bound twin: claims a GREASE frame is never delivered; must be refuted
 #[kani::proof]
